@@ -118,6 +118,22 @@ func main() {
 		if bad {
 			os.Exit(1)
 		}
+	case "lemma":
+		w, err := loadWorld(*repo)
+		if err != nil {
+			fmt.Fprintln(os.Stderr, "ENGINE-ERROR:", err)
+			os.Exit(2)
+		}
+		if len(pos) == 0 {
+			pos = sortedKeys(w.Lemmas)
+		}
+		for _, k := range pos {
+			if w.Lemmas[k] == nil {
+				fmt.Println("no such lemma", k)
+				continue
+			}
+			printFnResult(w.verifyLemma(k, opt), *verbose)
+		}
 	case "check":
 		if len(pos) != 1 {
 			fmt.Fprintln(os.Stderr, "usage: xvc check <property id>")
